@@ -55,12 +55,13 @@ IgnSets == <<
 >>
 
 Rules(s) ==
-    [ start |-> IF s = 7 THEN Class(<<Field("x", A1), Field("y", Opt(Ref("W"))), Field("z", RestAll)>>)
+    [ start |-> IF s = 17 THEN Class(<<LetF("o", A1), Field("y", Opt(Ref("W"))), Field("z", RestAll)>>)   \* first member: a constant let
+                ELSE IF s = 7 THEN Class(<<Field("x", A1), Field("y", Opt(Ref("W"))), Field("z", RestAll)>>)
                 ELSE Rule(Shapes[s]),
       W     |-> Rule(W),
       Tok   |-> Rule(Ch2(A1, B1)),
       S     |-> Class(<<Field("x", A1), Field("y", Opt(Ref("W")))>>),
-      R     |-> Rule(IF s = 7 THEN Seq2(Ref("S"), RestAll) ELSE Shapes[s]) ]     \* same body, but not the start rule
+      R     |-> Rule(IF s \in {7, 17} THEN Seq2(Ref("S"), RestAll) ELSE Shapes[s]) ]     \* same body, but not the start rule
 
 Grammar(s, i) == [rules |-> Rules(s), ign |-> IgnSets[i], start |-> "start"]
 
@@ -80,7 +81,7 @@ DeclsQuick == { <<FALSE, FALSE, "ignore">>, <<TRUE, TRUE, "ignored">>, <<TRUE, F
 VARIABLES s, ig, decl, done
 vars == <<s, ig, decl, done>>
 
-Init == /\ s \in 1..Len(Shapes) /\ ig \in 1..Len(IgnSets)
+Init == /\ s \in 1..(Len(Shapes) + 1) /\ ig \in 1..Len(IgnSets)
         /\ decl \in (IF Tier = "quick" THEN DeclsQuick ELSE Decls)
         /\ done = FALSE
 
